@@ -9,6 +9,7 @@ From SV Require Import proofs.TrellisDDProofs.
 From SV Require Import proofs.CleanProofs.
 From SV Require Import proofs.CleanDirs.
 From SV Require Import proofs.CleanLinks.
+From SV Require Import proofs.CleanPhases.
 Import ListNotations.
 Open Scope N_scope.
 
@@ -70,6 +71,45 @@ Theorem C06_untouched_unless_reported :
     let r := finalize c (init_state g f) in
     fs_get (s_fs r) q = Some e \/ In q (s_files r) \/ In q (s_dirs r).
 Proof. exact untouched_unless_reported. Qed.
+
+(* Workflow.to_be_deleted lives as long as the Workflow object, i.e. across the build phases of one director (watch
+   mode).  remove_deletable_files ends by clearing it and nothing follows the clear() (regenerated:
+   rdf_requeues_failed = false): after a cleanup that ran the queue is empty, a guarded finalize leaves it as it
+   was, so -- whatever happens to graph and tree between the phases -- no entry outlives the phase that queued it. *)
+Theorem C06_queue_empty_after_cleanup :
+  forall c s, existsb (guard_fires c) finalize_guards = false -> s_q (finalize c s) = empty_queue.
+Proof. exact queue_empty_after_cleanup. Qed.
+
+Theorem C06_queue_empty_across_phases :
+  forall phs s, s_q s = empty_queue -> s_q (fold_left next_phase phs s) = empty_queue.
+Proof. exact queue_empty_across_phases. Qed.
+
+(* Ownership for every phase of a director, judged on that phase's own graph and tree (a path the user adopted
+   as static between two phases is static in the later phase's graph): for every sequence of phases with arbitrary
+   graphs, trees and guards. *)
+Definition C06_removed_only_owned_across_phases : Prop :=
+  forall phs ph ever,
+    (forall n, In n (gnodes (ph_g ph)) -> nkind n = KFILE -> is_output_role (nfstate n) = true -> In (nlabel n) ever) ->
+    forall p, In p (s_files (next_phase (run_phases phs) ph)) ->
+      exists n, In n (gnodes (ph_g ph)) /\ nkind n = KFILE /\ nlabel n = p /\
+        In p ever /\ memN (nfstate n) static_states = false /\ is_output_role (nfstate n) = true /\
+        (lkind (ph_fs ph) p = KRegular \/ lkind (ph_fs ph) p = KSymlink) /\
+        (memN (nfstate n) volatile_states = true \/
+         (exists h0, stat (ph_fs ph) p = SFile h0 /\ nfhash n = Some h0) \/ false = true).
+
+Theorem C06_removed_only_owned_across_phases_holds : C06_removed_only_owned_across_phases.
+Proof. exact removed_only_owned_across_phases_holds. Qed.
+
+(* A variant of remove_deletable_files that puts failed removals back into the queue after the clear() (recognised
+   by the translator: rdf_requeues_failed = true) violates it: phase 1 cannot remove a volatile output the user
+   replaced by a directory, phase 2 deletes the file the user put there and declared static.  The refutation is
+   about the model with the flag as a parameter and is checked on every run. *)
+Theorem C06_requeue_variant_refuted : ~ removed_only_owned_across_phases_rq true.
+Proof. exact removed_only_owned_across_phases_requeue_refuted. Qed.
+
+Theorem C06_requeue_variant_is_the_code :
+  rdf_requeues_failed = true -> ~ C06_removed_only_owned_across_phases.
+Proof. exact requeue_variant_is_the_code. Qed.
 
 (* The regenerated branching itself: the recorded hash is compared whatever lstat reports for the queued path,
    and for the path handed to `stepup clean`; `clean` treats a path as missing when stat (following links) fails. *)
